@@ -120,6 +120,14 @@ Definition reset_all (st : state) : state :=
 Definition close_client (st : state) : state * list Z :=
   (reset_all (set_closed (set_clients st []) true), map fst (s_clients st)).
 
+(* close() called by the environment while a request of the RUNNING operation is pending: client.py:383-389
+   (_closing, every broker client closed, bootstrap Deferreds cancelled) fail that request synchronously, so the
+   rest of the operation runs - and reads the cache - inside close(), BEFORE reset_all_metadata() at 391 ... *)
+Definition close_early (st : state) : state := set_closed (set_clients st []) true.
+(* ... which takes effect once the operation during which close() was called has run to its end *)
+Definition close_finish (st0 st' : state) : state :=
+  if negb (s_closed st0) && s_closed st' then reset_all st' else st'.
+
 (* ---- _update_brokers: client.py:956-987 -------------------------------------------------------- *)
 (* 973: brokers_by_id = {bm.node_id: bm for bm in brokers} *)
 Definition by_id (bs : list bmeta) : list (Z * addr) :=
